@@ -116,6 +116,8 @@ def verify_function(ex, con, prop=None):
                 clsv = a.get("cls")
                 rest = {k: v for k, v in a.items() if k not in ("self", "cls", "__varargs__")}
                 pos = list(a.get("__varargs__", []))       # values for *args of the function under contract
+                if node.name == "__new__":
+                    pos = [clsv] + pos                      # an implicit static method: the class is its first argument
                 kind = selfv.kind if selfv is not None else getattr(clsv, "symbase", clsv.name)
                 outs = []
                 for (s_, tag_, f_) in ex.class_attr(kind, node.name, st0, fr, self_val=selfv, cls_val=clsv):
